@@ -82,14 +82,16 @@ End Libc.
 
 (* with a C library that implements the POSIX rule *)
 Lemma tzlocal_posix_utc_lemma r u :
-  (forall ds, r.(p_dst) = Some ds -> ds.(d_off) <> r.(p_off)) ->
+  (forall ds, r.(p_dst) = Some ds -> r.(p_off) < ds.(d_off)) ->
   exists f, tzlocal_observe_utc r u =
     (let '(o, d, n) := posix_observe r u in (u + o, f, o, d, n)).
 Proof.
   intros Hsv. unfold tzlocal_observe_utc, tzlocal_of, posix_observe.
   destruct (p_dst r) as [ds|] eqn:Hd.
-  - destruct (tzlocal_faithful_utc (posix_isdst r) (p_off r) (d_off ds) (p_name r) (d_name ds)
-                (Hsv ds eq_refl) u) as (f & E).
+  - pose proof (Hsv ds eq_refl) as Hlt.
+    replace (p_off r <=? d_off ds) with true by lia.
+    destruct (tzlocal_faithful_utc (posix_isdst r) (p_off r) (d_off ds) (p_name r) (d_name ds)
+                ltac:(lia) u) as (f & E).
     exists f. rewrite E. destruct (posix_isdst r u); reflexivity.
   - exists false. unfold l_observe_utc, l_fromutc, l_gen_ambiguous, l_utcoffset, l_dst, l_tzname,
       l_isdst, l_hasdst, l_dst_saved, l_dst_off.
@@ -104,7 +106,8 @@ Lemma tzlocal_posix_wall_lemma r ds w f u :
   tzlocal_observe_wall r w f = posix_observe r u.
 Proof.
   intros Hd Hsv Hu. unfold tzlocal_observe_wall, tzlocal_of, wall_instant, wall_candidates in *.
-  rewrite Hd in *. unfold l_observe_wall, l_utcoffset, l_dst, l_tzname.
+  rewrite Hd in *. replace (p_off r <=? d_off ds) with true by lia.
+  unfold l_observe_wall, l_utcoffset, l_dst, l_tzname.
   pose proof (tzlocal_faithful_wall (posix_isdst r) (p_off r) (d_off ds) ltac:(lia) w f) as L.
   cbv zeta in L. unfold posix_observe. rewrite Hd. unfold l_dst_off.
   destruct (posix_isdst r (w - d_off ds)) eqn:C1; destruct (posix_isdst r (w - p_off r)) eqn:C0;
@@ -117,3 +120,25 @@ Proof.
   - discriminate.
   - inversion Hu; subst u. rewrite (L eq_refl), C0. reflexivity.
 Qed.
+
+(* F-C08-4: with CPython's (smaller offset, larger offset) pair and a negative saving, tzlocal
+   contradicts POSIX -- at ANY instant, here 2021-07-01T12:00:00Z under the Irish rule:
+   model/dateutil +00:00 GMT, POSIX and glibc +01:00 IST *)
+Lemma tzlocal_negative_dst_refuted_lemma :
+  exists r u, wf_posix r = true /\
+    (exists ds, r.(p_dst) = Some ds /\ ds.(d_off) < r.(p_off)) /\
+    let '(_, _, o, _, n) := tzlocal_observe_utc r u in
+    let '(o', _, n') := posix_observe r u in o <> o' /\ n <> n'.
+Proof.
+  exists (mkPosix [73; 83; 84] 3600
+            (Some (mkDst [71; 77; 84] 0 (mkPrule (DM 10 5 0) 7200) (mkPrule (DM 3 5 0) 3600)))),
+         63760822800.
+  split; [vm_compute; reflexivity|]. split; [eexists; split; [reflexivity|vm_compute; reflexivity]|].
+  vm_compute. split; discriminate.
+Qed.
+
+Lemma tzlocal_posix_utc_pos_lemma r u :
+  (forall ds, r.(p_dst) = Some ds -> r.(p_off) < ds.(d_off)) ->
+  exists f, tzlocal_observe_utc r u =
+    (let '(o, d, n) := posix_observe r u in (u + o, f, o, d, n)).
+Proof. exact (tzlocal_posix_utc_lemma r u). Qed.
